@@ -373,4 +373,84 @@ theorem body_complete (neg : Bool) (b eb : Nat) (hb : b ≤ 62) (he : eb ≤ 62)
     have hx := (exponent_iff b eb he e x).2 hE
     simp only [List.cons_append, body, h0, Bool.false_eq_true, if_false, hm, ht.2, hany, hz, hx]
 
+/-! ### the whole string -/
+
+theorem body_head (neg : Bool) (b eb : Nat) {r : List Nat} {p : Parsed} (h : Body neg b eb r p) :
+    ∃ c t, r = c :: t ∧ (dv b c < b ∨ c = 46) := by
+  have key : ∀ m, First b m → ∀ tl : List Nat, ∃ c t, m ++ tl = c :: t ∧ (dv b c < b ∨ c = 46) := by
+    intro m hF tl
+    rcases hF with ⟨c, t, rfl, hc⟩ | ⟨d, t, rfl, _⟩
+    · exact ⟨c, t ++ tl, rfl, Or.inl hc⟩
+    · exact ⟨46, d :: t ++ tl, rfl, Or.inr rfl⟩
+  cases h with
+  | plain hF _ => simpa using key _ hF []
+  | zero hF _ _ _ _ => exact key _ hF _
+  | expo hF _ _ _ _ _ => exact key _ hF _
+
+/-- the recogniser after the NUL cut -/
+def recogS (base : Int) (s : List Nat) : Option Parsed :=
+  if decide (digitBase base < 2) || decide (62 < digitBase base) then none else
+  match s.dropWhile Radix.isSpace with
+  | 45 :: r => body true (digitBase base) (expoBase base) r
+  | r => body false (digitBase base) (expoBase base) r
+
+theorem recog_eq_recogS (base : Int) (s0 : List Nat) : recog base s0 = recogS base (cstr s0) := rfl
+
+theorem expoBase_le (base : Int) (h : digitBase base ≤ 62) : expoBase base ≤ 62 := by
+  unfold expoBase; split <;> omega
+
+theorem recogS_iff (base : Int) (s : List Nat) (p : Parsed) : recogS base s = some p ↔ Lang base s p := by
+  constructor
+  · intro h
+    unfold recogS at h
+    by_cases hr : (decide (digitBase base < 2) || decide (62 < digitBase base)) = true
+    · rw [if_pos hr] at h; cases h
+    · rw [if_neg hr] at h
+      have hr' : ¬ (digitBase base < 2 ∨ 62 < digitBase base) := by simpa using hr
+      have hb2 : 2 ≤ digitBase base := by omega
+      have hb : digitBase base ≤ 62 := by omega
+      have he := expoBase_le base hb
+      have hsplit := List.takeWhile_append_dropWhile (p := Radix.isSpace) (l := s)
+      have hws : ∀ x ∈ s.takeWhile Radix.isSpace, Radix.isSpace x = true := fun x hx => mem_tw _ _ hx
+      split at h
+      · rename_i r heq
+        rw [heq] at hsplit
+        rw [← hsplit]
+        exact Lang.neg hb2 hb hws (body_sound _ _ _ hb he _ _ h)
+      · rw [← hsplit]
+        exact Lang.pos hb2 hb hws (body_sound _ _ _ hb he _ _ h)
+  · intro h
+    cases h with
+    | @pos ws r p hb2 hb hws hB =>
+      have he := expoBase_le base hb
+      obtain ⟨c, t, rfl, hc⟩ := body_head _ _ _ hB
+      have hsp : Radix.isSpace c = false := by
+        rcases hc with hc | rfl
+        · exact dig_not_space _ c hb hc
+        · decide
+      have h45 : c ≠ 45 := by
+        rcases hc with hc | rfl
+        · exact fun h => not_dig _ _ 45 hb (by simp) (h ▸ hc)
+        · decide
+      have hd := (tw_append (p := Radix.isSpace) ws c t hws hsp).2
+      have hr : (decide (digitBase base < 2) || decide (62 < digitBase base)) = false := by
+        simp; omega
+      unfold recogS
+      rw [hr, hd]
+      simp only [Bool.false_eq_true, if_false]
+      split
+      · rename_i r heq
+        simp only [List.cons.injEq] at heq
+        exact absurd heq.1 h45
+      · exact body_complete _ _ _ hb he _ _ hB
+    | @neg ws r p hb2 hb hws hB =>
+      have he := expoBase_le base hb
+      have hd := (tw_append (p := Radix.isSpace) ws 45 r hws (by decide)).2
+      have hr : (decide (digitBase base < 2) || decide (62 < digitBase base)) = false := by
+        simp; omega
+      unfold recogS
+      rw [hr, hd]
+      simp only [Bool.false_eq_true, if_false]
+      exact body_complete _ _ _ hb he _ _ hB
+
 end Mpir.MpfParse
